@@ -50,6 +50,7 @@ Definition block_lines_ok (tags : string * string) (bl el : string) : bool :=
 Definition item16_ok (it : item16) : bool :=
   match it with
   | Text l => text_ok l
+  | Raw s => no_char (chr 60) s && (count_char LF s <=? 1)%nat
   | Block k ib ie body =>
       block_lines_ok (stage_tags k) (ib ++ begin_line (block_word k))%string (ie ++ end_line (block_word k))%string
       && forallb (body_line_ok (keys_of k)) body
@@ -74,6 +75,7 @@ Definition block_wf {A} (tb : A -> nat -> list (string * string)) (items : list 
 Definition item16_wf (e : elements) (it : item16) : bool :=
   match it with
   | Text _ => true
+  | Raw _ => true
   | Block k _ _ body => block_wf (table_of_kind k) (items_of e k) body
   | SigBlock _ _ body => block_wf sig_table (el_sigs e) body
   end.
